@@ -181,7 +181,7 @@ def lphNet (g : Mem) (off : Nat) (et o l : Nat) (r : Packet) (pay : Pay) : Heade
   else if et = 0x0806 then
     match arpFromSlice g o l with
     | .error e => { p := r.setStop (.len (e.addOffset off)) .arp, pay := pay }
-    | .ok w => { p := r.setNet (.arp w), pay := pay }
+    | .ok w => { p := r.setNet (.arp w), pay := .empty }
   else { p := r, pay := pay }
 
 /-- the loop of `LaxPacketHeaders::from_ether_type`; `off` is the running `offset` variable -/
